@@ -25,10 +25,21 @@ the x509 template plus the public key handed to `x509.CreateCertificate`) and pa
 uninterpreted `encode`; the theorems assume a left inverse `decode`.  The random serial number is
 not modelled.  A Go panic is the explicit response `Resp.crash`.
 
-`guard` selects the code before (`false`) / after (`true`) the `fix:` commit that makes
-`genCertTemplateFromCSR` reject a subject ID containing the SAN separator ','.
+`Fixes` selects, per `fix:` commit, the code before (`false`) / after (`true`) it:
+  comma       genCertTemplateFromCSR rejects a subject ID containing the SAN separator ','
+  capDefault  IstioCA.sign caps a defaulted lifetime at maxCertTTL
 -/
 namespace IstioModel.C09
+
+structure Fixes where
+  comma      : Bool
+  capDefault : Bool
+  deriving DecidableEq, Repr
+
+/-- the code as it is in /repo now -/
+def Fixes.all : Fixes := ⟨true, true⟩
+/-- the pinned tree before any `fix:` commit of this property -/
+def Fixes.none : Fixes := ⟨false, false⟩
 
 /-! ## Strings: `strings.Split` / `strings.Join` / `strings.HasPrefix` with a one-byte separator -/
 
@@ -210,6 +221,7 @@ structure CSR where
 /-- `x509.Certificate` template fields set by `genCertTemplateFromCSR`. -/
 structure Template where
   subjectCN   : String
+  subjectOther : List String -- every other attribute of the subject (O, OU, ...): always none
   notBefore   : Int
   notAfter    : Int
   keyUsage    : Nat          -- x509.KeyUsage bit mask
@@ -250,6 +262,7 @@ def signerExpired (signerNotAfter : Option Int) (now : Int) : Bool :=
 def mkTemplate (csrCN : String) (subjectIDs : List String) (ttl : Int) (isCA : Bool)
     (signerNotAfter : Option Int) (now : Int) : Template :=
   { subjectCN := subjectCNOf csrCN (join ',' subjectIDs),
+    subjectOther := [],
     notBefore := now - clockSkewGrace,
     notAfter := notAfterOf signerNotAfter now ttl,
     keyUsage := if isCA then kuCertSign else kuDigitalSignature + kuKeyEncipherment,
@@ -321,11 +334,14 @@ inductive SignRes
   | ok (d : CertData)
   deriving DecidableEq, Repr
 
-/-- a non-positive requested lifetime means the default TTL -/
-def lifetimeOf (ca : CA) (requested : Int) : Int := if requested ≤ 0 then ca.defaultTTL else requested
+/-- a non-positive requested lifetime means the default TTL (capped at the maximum since the fix) -/
+def lifetimeOf (cap : Bool) (ca : CA) (requested : Int) (checkLifetime : Bool) : Int :=
+  if requested ≤ 0 then
+    (if cap ∧ checkLifetime ∧ ca.defaultTTL > ca.maxTTL then ca.maxTTL else ca.defaultTTL)
+  else requested
 
 /-- `IstioCA.sign(csrPEM, subjectIDs, requestedLifetime, checkLifetime, forCA)` at time `now`. -/
-def sign (guard : Bool) (ca : CA) (csr : CSR) (subjectIDs : List String) (requested : Int)
+def sign (fx : Fixes) (ca : CA) (csr : CSR) (subjectIDs : List String) (requested : Int)
     (checkLifetime forCA : Bool) (now : Int) : SignRes :=
   match ca.bundle.signerNotAfter with
   | none => .err (.ca .caNotReady)
@@ -336,7 +352,7 @@ def sign (guard : Bool) (ca : CA) (csr : CSR) (subjectIDs : List String) (reques
     else
       if checkLifetime ∧ requested > ca.maxTTL then .err (.ca .ttlError)
       else
-        match genTemplate guard csr.cn subjectIDs (lifetimeOf ca requested) forCA (some sna) now with
+        match genTemplate fx.comma csr.cn subjectIDs (lifetimeOf fx.capDefault ca requested checkLifetime) forCA (some sna) now with
         | none => .err (.ca .certGenError)
         | some t => .ok { tmpl := t, pubKey := csr.pubKey }
 
@@ -394,6 +410,7 @@ structure Pod where
   uid  : String
   sa   : String
   node : String
+  failed : Bool := false   -- status.phase == Failed: filtered out by the informer's field selector
   deriving DecidableEq, Repr
 
 /-- `spiffe.ParseIdentity`: (trust domain, namespace, service account) -/
@@ -437,11 +454,14 @@ def lookupCluster (id : String) : List (String × List Pod) → Option (List Pod
   | [] => none
   | (k, v) :: rest => if k = id then some v else lookupCluster id rest
 
+/-- what the pod informer (field selector `status.phase!=Failed`) holds of the cluster's pods -/
+def informerPods (pods : List Pod) : List Pod := pods.filter (fun p => !p.failed)
+
 /-- `MulticlusterNodeAuthorizor.authenticateImpersonation` -/
 def impersonationOK (na : NodeAuth) (ctx : Ctx) (caller : KubeInfo) (requested : String) : Bool :=
   match lookupCluster (clusterID ctx) na.clusters with
   | none => false
-  | some pods => clusterImpersonationOK na.trusted pods caller requested
+  | some pods => clusterImpersonationOK na.trusted (informerPods pods) caller requested
 
 /-! ## `Server.CreateCertificate` -/
 
@@ -502,7 +522,7 @@ def effectiveSans (srv : Server) (ctx : Ctx) (caller : Caller) (req : Request) :
 
 /-- `Server.CreateCertificate` over an `IstioCA`.  `Sign` (CertSigner == "") and `SignWithCertChain`
     give the same expanded response chain: leaf, the cert-chain certificates, the root. -/
-def createCertificate {κ : Type} (guard : Bool) (encode : CertData → κ) (srv : Server) (ctx : Ctx)
+def createCertificate {κ : Type} (fx : Fixes) (encode : CertData → κ) (srv : Server) (ctx : Ctx)
     (outs : List AuthOut) (req : Request) (now : Int) : Resp κ :=
   match authenticate ctx outs with
   | none => .err .unauthenticated
@@ -510,14 +530,14 @@ def createCertificate {κ : Type} (guard : Bool) (encode : CertData → κ) (srv
     match effectiveSans srv ctx caller req with
     | none => .err .unauthenticated
     | some sans =>
-      match sign guard srv.ca req.csr sans (requestedTTL req.validity) true false now with
+      match sign fx srv.ca req.csr sans (requestedTTL req.validity) true false now with
       | .err (.ca e) => .err e.code
       | .err .other => .crash
       | .ok d =>
         .ok ([Entry.leaf (encode d)] ++ srv.ca.bundle.chain.map (fun c => Entry.chain c.name)
               ++ (if srv.ca.bundle.hasRoot then [Entry.root] else []))
 
-/-- The code as it is in /repo now: `true` since the `fix:` commit that rejects subject IDs containing a comma. -/
-def repoGuard : Bool := true
+/-- The code as it is in /repo now. -/
+def repoFixes : Fixes := Fixes.all
 
 end IstioModel.C09
